@@ -623,6 +623,90 @@ def run(prog, pid, clauses):
         out.append(ob("reset-precedes-every-statement-parse", not problems, dict(call_sites=sites, offenders=problems),
                       {view.methods[m].key for m in ("process_line", "parse_data") if m in view.methods}, pid))
 
+    if "token-text-only-through-upper" in clauses:
+        # C05: the token-typing functions may look at the text of a word only through its upper-case form, or in ways
+        # that do not depend on letter case (length, punctuation tests, trailing comma, the symbol table whose keys
+        # are punctuation, the ARRAY notation of C09).  Every other read of <token>.value is an offender.
+        typing = ["t_ID", "tokens_not_columns_names", "process_body_tokens", "after_columns_tokens", "is_token_column_name",
+                  "is_creation_name", "set_lexer_tags", "set_lexx_tags", "commat_type", "set_parenthesis_tokens",
+                  "capitalize_tokens", "parse_tags_symbols", "get_tag_symbol_value_and_increment", "t_COLLATE", "t_AUTOINCREMENT"]
+        import string
+        real_tok = prog.real.get(PKG + ".tokens")
+
+        def punct_only(v):
+            if isinstance(v, str):
+                return not any(c.isalpha() for c in v)
+            if isinstance(v, (list, tuple, set, frozenset, dict)):
+                return all(punct_only(x) for x in v)
+            return False
+
+        def const_value(node, fn_node):
+            """value of a constant expression: literal, list of literals, local name bound once to such, tok.<table>"""
+            try:
+                return ast.literal_eval(node)
+            except Exception:
+                pass
+            if isinstance(node, ast.Name):
+                binds = [st.value for st in ast.walk(fn_node) if isinstance(st, ast.Assign) and any(isinstance(t, ast.Name) and t.id == node.id for t in st.targets)]
+                if len(binds) == 1:
+                    return const_value(binds[0], fn_node)
+            p = attr_path(node)
+            if p and len(p) == 2 and p[0] == "tok" and real_tok is not None:
+                return getattr(real_tok, p[1], None)
+            return None
+        bad, used = [], set()
+        for m in typing:
+            fref = view.methods.get(m)
+            if fref is None:
+                continue
+            used.add(fref.key)
+            parents = {}
+            for n in ast.walk(fref.node):
+                for c in ast.iter_child_nodes(n):
+                    parents[id(c)] = n
+            params = [a.arg for a in fref.node.args.args[1:]]
+            for n in ast.walk(fref.node):
+                if not (isinstance(n, ast.Attribute) and n.attr == "value" and isinstance(n.value, ast.Name) and n.value.id in params and isinstance(n.ctx, ast.Load)):
+                    continue
+                par = parents.get(id(n))
+                gp = parents.get(id(par)) if par is not None else None
+                ok = False
+                if isinstance(par, ast.Attribute) and isinstance(gp, ast.Call) and gp.func is par:
+                    meth = par.attr
+                    if meth == "upper":
+                        ok = True
+                    elif meth in ("endswith", "count") and gp.args and punct_only(const_value(gp.args[0], fref.node)):
+                        ok = True
+                    elif meth == "startswith" and gp.args and const_value(gp.args[0], fref.node) == "ARRAY":
+                        ok = True      # array notation (C09), documented as case-sensitive
+                elif isinstance(par, ast.Call) and isinstance(par.func, ast.Name) and par.func.id == "len":
+                    ok = True
+                elif isinstance(par, ast.Subscript) and par.value is n:
+                    ok = True          # slicing (trailing comma removal) keeps the letters as written
+                elif isinstance(par, ast.Compare):
+                    others = [par.left] + list(par.comparators)
+                    others = [o for o in others if o is not n]
+                    vals = [const_value(o, fref.node) for o in others]
+                    if all(v is not None and punct_only(v) for v in vals):
+                        ok = True
+                    # `for key in tok.symbol_tokens_no_check: if key in t.value`
+                    for o in others:
+                        if isinstance(o, ast.Name):
+                            for lp in ast.walk(fref.node):
+                                if isinstance(lp, ast.For) and isinstance(lp.target, ast.Name) and lp.target.id == o.id and punct_only(const_value(lp.iter, fref.node)):
+                                    ok = True
+                elif isinstance(par, ast.Call) and isinstance(par.func, ast.Attribute) and par.func.attr == "get" and n in par.args:
+                    table = const_value(par.func.value, fref.node)
+                    if isinstance(table, dict) and punct_only(list(table.keys())):
+                        ok = True      # symbol table: keys are punctuation
+                elif isinstance(par, ast.Assign) or isinstance(par, ast.Return):
+                    ok = True
+                elif isinstance(par, (ast.JoinedStr, ast.FormattedValue, ast.BinOp)):
+                    ok = True          # error messages
+                if not ok:
+                    bad.append("%s reads the token text case-sensitively at %s: %s" % (m, view.where(fref, n), ast.unparse(par)[:80] if par is not None else "?"))
+        out.append(ob("token-text-read-only-through-upper", not bad and bool(used), dict(offenders=bad, functions=len(used)), used, pid))
+
     if "tables-append-only" in clauses:
         bad = []
         for m in sorted(run_methods):
